@@ -116,7 +116,10 @@ Definition make_multiplier (w x : qt) : impl * qt :=
   let '(i, o) := mul_table (q_mode w) (q_mode x) in (i, run_impl i w x (tmpl o)).
 
 (* ---------------- accumulators (accumulator_impl.py) ---------------- *)
+(* 2^max_exp needs max_exp + 1 integer bits (repaired by fix: 1f09dc0; before: int_bits = max_exp) *)
 Definition po2_to_qbits (t : qt) : Z * Z :=
+  let '(mn, mx) := get_exp t in (b2z (q_sgn t) + (mn + mx + 1), mx + 1).
+Definition po2_to_qbits_before_repair (t : qt) : Z * Z :=
   let '(mn, mx) := get_exp t in (b2z (q_sgn t) + (mn + mx), mx).
 
 Definition log_add_ops (kernel_ops : Z) (use_bias : bool) : Z :=
